@@ -107,47 +107,90 @@ pub fn run(reg: &dyn Registry, ctx: &Ctx) -> Outcome {
         })
         .collect();
 
-    // JitterRng: no public read position at all, so every history and every pool must give one text
+    // JitterRng: generators that went through the same call history share the same public read
+    // position, whatever their timer delivered and whatever their pool holds: their texts must be equal.
+    // Variants per history: three benign timers, timers with long runs of stuck measurements, and
+    // value-directed pools (hook + linear solve) for which the first collected word is special.
     {
-        let mut texts: BTreeSet<(String, String)> = BTreeSet::new();
+        let mut texts_all: BTreeSet<(String, String)> = BTreeSet::new();
         let alphabet = vec![Op::U32, Op::U64, Op::Fill(3), Op::Fill(9), Op::TimerStats(false), Op::SetRounds(3)];
         let hs = all_histories(&alphabet, depth.min(3));
+        let rounds = 2u8;
+        let mut variants: Vec<(String, Vec<u64>, Option<u64>)> = Vec::new();
         for salt in 0..3u64 {
-            let readings = jitter_env::benign_readings(ctx.seed ^ (0x17 + salt), 2, 14, 64);
-            for h in &hs {
-                let (mut g, _) = jitter_env::jitter_with(reg, readings.clone(), Some(2));
-                for op in h {
-                    let _ = apply(&mut g, op);
-                }
+            variants.push((format!("benign timer {}", salt), jitter_env::benign_readings(ctx.seed ^ (0x17 + salt), rounds, 14, 64), None));
+        }
+        for k in [1usize, 9, 33, 130, 1030] {
+            let base = jitter_env::raw_readings(ctx.seed ^ 0x17AA ^ k as u64, 14 * jitter_env::readings_per_word(3) + 3 * k + 100);
+            variants.push((format!("{} consecutive stuck measurements in the first collection", k), jitter_env::with_stuck_run(&base, 5, k, jitter_env::Dev::Repeat3), None));
+            variants.push((format!("{} consecutive stuck measurements in the second collection", k), jitter_env::with_stuck_run(&base, jitter_env::readings_per_word(rounds) + 5, k, jitter_env::Dev::SameDelta), None));
+        }
+        let vd = jitter_env::benign_readings(ctx.seed ^ 0x17CC, rounds, 14, 64);
+        for &target in jitter_env::SPECIAL_WORDS.iter() {
+            if let Some(p) = jitter_env::solve_pool_for_first_output(reg, &vd, rounds, target) {
+                variants.push((format!("first collected word {:#x}", target), vd.clone(), Some(p)));
+            }
+        }
+        ctx.set("jitter_variants_per_history", variants.len() as u64);
+        let results: Vec<Vec<(String, String, u64)>> = hs
+            .par_iter()
+            .map(|h| {
+                variants
+                    .iter()
+                    .map(|(_, readings, pool)| {
+                        let (mut g, _) = jitter_env::jitter_with(reg, readings.clone(), Some(rounds));
+                        if let Some(p) = pool {
+                            g.jitter().unwrap().set_pool(*p);
+                        }
+                        for op in h {
+                            let _ = apply(&mut g, op);
+                        }
+                        (g.debug(false), g.debug(true), g.jitter().unwrap().pool())
+                    })
+                    .collect()
+            })
+            .collect();
+        for (h, row) in hs.iter().zip(results.iter()) {
+            for (vi, (t0, t1, pool)) in row.iter().enumerate() {
                 ctx.add("states", 1);
                 ctx.add("transitions", 2);
-                let t = (g.debug(false), g.debug(true));
-                let pool = g.jitter().unwrap().pool();
                 let mut words = BTreeSet::new();
-                words.insert(pool);
+                words.insert(*pool);
                 words.insert(pool >> 32);
                 words.insert(pool & 0xffff_ffff);
                 let words: BTreeSet<u64> = words.into_iter().filter(|&v| v >= 1 << 16).collect();
-                for text in [&t.0, &t.1] {
+                for text in [t0, t1] {
                     if let Some(v) = leaks(text, &words) {
-                        ctx.violation("C17:JitterRng:leak", &format!("JitterRng: Debug text after {} contains the pool word {:#x}: {}", ops_short(h), v, text), json!({"kind":"debug","type":"JitterRng","ops":ops_json(h)}));
+                        ctx.violation("C17:JitterRng:leak", &format!("JitterRng: Debug text after {} ({}) contains the pool word {:#x}: {}", ops_short(h), variants[vi].0, v, text), json!({"kind":"debug","type":"JitterRng","ops":ops_json(h),"variant":variants[vi].0}));
                     }
                 }
-                if texts.insert(t.clone()) && texts.len() > 1 {
-                    ctx.violation("C17:JitterRng:state-dependent", &format!("JitterRng: Debug text after {} is {:?}, after another history/timer it was {:?}", ops_short(h), t.0, texts.iter().next().unwrap().0), json!({"kind":"debug","type":"JitterRng","ops":ops_json(h)}));
-                }
-                // pool values through the hook, same history
-                for p in [0u64, 1, u64::MAX, 0x0123_4567_89ab_cdef] {
-                    g.jitter().unwrap().set_pool(p);
-                    let t2 = (g.debug(false), g.debug(true));
-                    ctx.add("states", 1);
-                    if t2 != t {
-                        ctx.violation("C17:JitterRng:pool-dependent", &format!("JitterRng: Debug text changes to {:?} when the pool is {:#x} (history {})", t2.0, p, ops_short(h)), json!({"kind":"debug","type":"JitterRng","ops":ops_json(h),"pool":format!("{:#x}",p)}));
+                texts_all.insert((t0.clone(), t1.clone()));
+                if vi > 0 {
+                    ctx.add("seed_pairs_compared", 1);
+                    if (t0, t1) != (&row[0].0, &row[0].1) {
+                        ctx.violation(
+                            "C17:JitterRng:state-dependent",
+                            &format!("JitterRng: after the same history {} the Debug text is {:?} with {} but {:?} with {}", ops_short(h), t0, variants[vi].0, row[0].0, variants[0].0),
+                            json!({"kind":"debug","type":"JitterRng","ops":ops_json(h),"variant_a":variants[0].0,"variant_b":variants[vi].0}),
+                        );
                     }
                 }
             }
+            // pool values through the hook, same history
+            let (mut g, _) = jitter_env::jitter_with(reg, variants[0].1.clone(), Some(rounds));
+            for op in h {
+                let _ = apply(&mut g, op);
+            }
+            for p in [0u64, 1, u64::MAX, 0x0123_4567_89ab_cdef, 0x0000_0000_ffff_ffff, 0xffff_ffff_0000_0000] {
+                g.jitter().unwrap().set_pool(p);
+                let t2 = (g.debug(false), g.debug(true));
+                ctx.add("states", 1);
+                if (&t2.0, &t2.1) != (&row[0].0, &row[0].1) {
+                    ctx.violation("C17:JitterRng:pool-dependent", &format!("JitterRng: Debug text changes to {:?} when the pool is {:#x} (history {})", t2.0, p, ops_short(h)), json!({"kind":"debug","type":"JitterRng","ops":ops_json(h),"pool":format!("{:#x}",p)}));
+                }
+            }
         }
-        ctx.set("jitter_distinct_texts", texts.len() as u64);
+        ctx.set("jitter_distinct_texts_info", texts_all.len() as u64);
     }
     if ctx.get("seed_pairs_compared") == 0 || ctx.get("secret_words_checked") == 0 {
         ctx.machinery("anti-vacuity: nothing compared");
@@ -161,7 +204,7 @@ pub fn run(reg: &dyn Registry, ctx: &Ctx) -> Outcome {
             traces: "seed_pairs_compared",
             evaluations: "states",
             distinct: "states",
-            rule: format!("for XorShiftRng, Hc128Rng/Core, IsaacRng/Core, Isaac64Rng/Core: every history up to depth {} from every start offset x 5 seeds (zero, ones, ramp, two dense); {{:?}} and {{:#?}} must be byte-identical across the seeds and contain no state/output word >= 2^16 (decimal or hex); JitterRng: every history over outputs/timer_stats/set_rounds x 3 timers x 5 pool values must give one single text", depth),
+            rule: format!("for XorShiftRng, Hc128Rng/Core, IsaacRng/Core, Isaac64Rng/Core: every history up to depth {} from every start offset x 5 seeds (zero, ones, ramp, two dense); {{:?}} and {{:#?}} must be byte-identical across the seeds and contain no state/output word >= 2^16 (decimal or hex); JitterRng: for every history over outputs/timer_stats/set_rounds the text must be the same for 3 benign timers, 10 timers with runs of 1..1030 stuck measurements, 8 value-directed pools (first collected word zero / zero half / all ones ...) and 6 pool values", depth),
         },
     }
 }
